@@ -580,13 +580,13 @@ def run(ctx: Ctx):
     plain_acc = [a for a in ACCEPTED if "@" not in a and "#" not in a]
     if ctx.quick:
         # one fork costs far more than a compilation: instead of one process per [r, x, x] the designs x are chained
-        # in chunks of 4 behind the rejected design (order shuffled per seed, the always-rejected canary first);
+        # in chunks of 5 behind the rejected design (order shuffled per seed, the always-rejected canary first);
         # a failing chain is minimised to [culprit, victim] afterwards.  thorough = the full matrix.
         for r in REJECTED:
             xs = list(plain_acc)
             rng.shuffle(xs)
-            for c in range(0, len(xs), 4):
-                hists.append([r] + (["r_trace_noctx"] if c == 0 else []) + [y for x in xs[c:c + 4] for y in (x, x)])
+            for c in range(0, len(xs), 5):
+                hists.append([r] + (["r_trace_noctx"] if c == 0 else []) + [y for x in xs[c:c + 5] for y in (x, x)])
     else:
         for r in REJECTED:
             for x in list(POOL):
